@@ -43,8 +43,9 @@ impl PartialEq for Term {
         match (self, o) {
             (Bool(a), Bool(b)) => a == b,
             (Int(w, a), Int(x, b)) => w == x && a == b,
-            (F64(a), F64(b)) => a == b,
-            (F32(a), F32(b)) => a == b,
+            // bit for bit: -0.0 is not 0.0
+            (F64(a), F64(b)) => a.to_bits() == b.to_bits(),
+            (F32(a), F32(b)) => a.to_bits() == b.to_bits(),
             (Char(a), Char(b)) => a == b,
             (Str(a), Str(b)) => a == b,
             (Unit, Unit) | (None, None) => true,
